@@ -736,6 +736,13 @@ func (c *acase) inDomain() string {
 	if !ok {
 		return "too-many-redirects"
 	}
+	if c.method == "CONNECT" {
+		for _, q := range chain {
+			if q != "" && q[0] != '/' {
+				return "bad-op" // CONNECT on a path that lost its leading slash: slash counting of the routing tree is not modelled
+			}
+		}
+	}
 	c.mayStop = c.method == "POST" && contains(chain, "/stop")
 	return ""
 }
@@ -1373,6 +1380,9 @@ func (p *prop) Run(line string) core.Outcome {
 	if f := strings.Fields(line); len(f) > 0 && f[0] == "cf" {
 		return p.runCf(f)
 	}
+	if f := strings.Fields(line); len(f) > 0 && f[0] == "ip" {
+		return p.runIP(f)
+	}
 	if f := strings.Fields(line); len(f) > 0 && f[0] == "url" {
 		return p.runURL(f)
 	}
@@ -1382,6 +1392,19 @@ func (p *prop) Run(line string) core.Outcome {
 	}
 	if ans := c.inDomain(); ans != "" {
 		return core.Outcome{Impl: ans, Tags: []string{ans, "trivial"}}
+	}
+	if exp, err := caddy.NewReplacer().ReplaceOrErr(c.listen, true, true); err == nil {
+		if exp == "" {
+			exp = defaultLocalListen
+			if c.remote {
+				exp = ":2021"
+			}
+		}
+		if i := strings.Index(exp, "/"); i >= 0 && strings.HasPrefix(strings.ToLower(strings.TrimSpace(exp[:i])), "unix") {
+			if j := strings.Index(exp[i+1:], "|"); j >= 0 && len(exp[i+1:])-j-1 > 6 {
+				return core.Outcome{Impl: "bad-op", Tags: []string{"bad-op", "trivial"}} // permission bits are modelled up to 6 octal digits
+			}
+		}
 	}
 	// the listen string goes through the real parseAdminListenAddr (the model parses it itself)
 	addr, err := caddy.VerifParseAdminListenAddr(c.listen, c.remote)
